@@ -6,7 +6,7 @@
 From Coq Require Import Permutation.
 From DivanV Require Import Base.Res Model.Registry Model.Tree Model.Driver
   Proofs.TreeBase Proofs.DriverExec Proofs.DriverC14 Proofs.TreeLeaves Proofs.Flat Proofs.FlatBridge Proofs.Expand
-  Proofs.TreeEquiv Proofs.ListView Model.ListPush Proofs.ListPush Proofs.RawAttach.
+  Proofs.TreeEquiv Proofs.ListView Model.ListPush Proofs.ListPush Proofs.RawAttach Proofs.LookupsAgree.
 Local Open Scope N_scope.
 
 (** The leaves of the tree are the registered entries — each exactly once, under
@@ -79,11 +79,33 @@ Print Assumptions C12_order_independent.
     [#[divan::bench_group]] modules above it, a generic function's own entry
     standing at its own key, nothing else. *)
 Theorem C12_flat_semantics : forall c benches groups,
+  no_name_clash (attach_key benches groups) benches groups -> no_raw_twins benches groups ->
+  Permutation (exec_forest c [] None (retain (c_filter c) (build_tree benches groups)))
+              (flat_exec c benches groups).
+Proof. exact exec_flat_no_twins. Qed.
+Print Assumptions C12_flat_semantics.
+
+(** [no_raw_twins]: in the tree of the benchmarks' module paths no two sibling
+    modules differ only by a leading "r#" (always true of a Rust program: [r#x] and
+    [x] are the same identifier).  It gives the agreement of the two lookups the
+    previous theorem goes through: *)
+Theorem C12_lookups_agree_of_no_twins : forall benches groups,
+  no_raw_twins benches groups -> lookups_agree benches groups.
+Proof. exact lookups_agree_of_no_twins. Qed.
+Print Assumptions C12_lookups_agree_of_no_twins.
+
+Theorem C12_flat_semantics_lookups : forall c benches groups,
   no_name_clash (attach_key benches groups) benches groups -> lookups_agree benches groups ->
   Permutation (exec_forest c [] None (retain (c_filter c) (build_tree benches groups)))
               (flat_exec c benches groups).
 Proof. exact exec_flat. Qed.
-Print Assumptions C12_flat_semantics.
+Print Assumptions C12_flat_semantics_lookups.
+
+Theorem C12_no_raw_twins_registry :
+  no_raw_twins [w_bench_a; x_bench] [w_mod_group] /\
+  no_name_clash (attach_key [w_bench_a; x_bench] [w_mod_group]) [w_bench_a; x_bench] [w_mod_group].
+Proof. exact no_raw_twins_registry. Qed.
+Print Assumptions C12_no_raw_twins_registry.
 
 Theorem C12_guard_satisfiable :
   no_name_clash (attach_key [w_bench_a] [w_mod_group]) [w_bench_a] [w_mod_group] /\
@@ -124,10 +146,10 @@ Print Assumptions C12_built_tree_inhabited.
     display path — and the walk does not panic. *)
 Theorem C12_list_view : forall srt, (forall t, forest_perm t (srt t)) ->
   forall c benches groups,
-  no_name_clash (attach_key benches groups) benches groups -> lookups_agree benches groups ->
+  no_name_clash (attach_key benches groups) benches groups -> no_raw_twins benches groups ->
   snd (run_action c srt List benches groups) = None /\
   Permutation (painted_leaves (fst (run_action c srt List benches groups))) (flat_list c benches groups).
-Proof. exact list_view. Qed.
+Proof. exact list_view_no_twins. Qed.
 Print Assumptions C12_list_view.
 
 (** Without that guard the property FAILS in divan (finding F8): a module and a
